@@ -240,15 +240,15 @@ HARNESSES = [
          witness_per_config=True, backends=["default"],
          bound="EA block of 96 bytes with 1..2 entries (name length 3 / 8, all other fields symbolic), inode map of 2 symbolic entries, last_ino symbolic"),
     dict(name="bbmove", src="bbmove.c",
-         funcs=["block_mover", "get_new_block", "init_block_alloc", "ext2fs_add_extent_entry", "ext2fs_iterate_extent"],
-         extra_src=["resize/extent.c"],
+         funcs=["block_mover", "get_new_block", "init_block_alloc"],
+         extra_src=["lib/ext2fs/blknum.c"],
          configs=[{}],
-         unwind=4, unwindset=["main.%d:18" % i for i in range(12)] +
-                   ["block_mover.0:18", "block_mover.1:18", "block_mover.2:18", "block_mover.3:18", "get_new_block.0:24",
-                    "ext2fs_mark_generic_bmap.0:18", "ext2fs_unmark_generic_bmap.0:18", "ext2fs_test_generic_bmap.0:18",
-                    "io_channel_write_blk64.0:18", "io_channel_write_blk64.1:3", "ext2fs_mark_block_bitmap_range2.0:6"],
+         unwind=4, unwindset=["main.%d:10" % i for i in range(12)] +
+                   ["block_mover.0:10", "block_mover.1:10", "block_mover.2:10", "block_mover.3:10", "get_new_block.0:14",
+                    "ext2fs_mark_generic_bmap.0:10", "ext2fs_unmark_generic_bmap.0:10", "ext2fs_test_generic_bmap.0:10",
+                    "io_channel_write_blk64.0:10", "io_channel_write_blk64.1:3", "ext2fs_add_extent_entry.0:10", "ext2fs_iterate_extent.0:10", "ext2fs_mark_block_bitmap_range2.0:6"],
          backends=["default", "kissat"],
-         bound="old file system 2 groups x 8 blocks shrinks to 1 group; in-use / move / reserve sets and 0..2 bad blocks symbolic; "
+         bound="old file system 2 groups x 4 blocks shrinks to 1 group; in-use / move / reserve sets and 0..2 bad blocks symbolic; "
                "copy chunks of at most 2 blocks"),
 ]
 MANIFEST = {
@@ -260,11 +260,11 @@ MANIFEST = {
             "sparse_super2 call protocol (blkmove), reserve/clear_sparse_super2_last_group against the backup-group footprint (ss2reserve, "
             "ss2clear), the directory-entry callback of inode_ref_fix (dirref), resize2fs_calculate_summary_stats against a plain count incl. "
             "bigalloc (sumstats), move_itables on a tagged block device incl. overlapping moves (itmove), and the initialisation of added groups "
-            "by adjust_fs_info on a grow against the backup footprint of the NEW file system (newgroups). Within each harness's stated bounds the verdict covers every value. This is a thin "
+            "by adjust_fs_info on a grow against the backup footprint of the NEW file system (newgroups), the rewriting of EA-inode references (eafix) and block_mover incl. the bad-blocks inode protocol on a list model (bbmove). Within each harness's stated bounds the verdict covers every value. This is a thin "
             "slice of C08: no file content is ever moved or compared.",
     "note": "Trusted: CBMC's C semantics (incl. its float model for the interpolation search), the stage stubs of errflag and their "
             "stated side effects, the harness's restatement of the on-disk format. Query errflag[FLUSH_FAULT] (the flush that makes the error flag durable may "
             "fail) found that resize_fs ignored that result; repaired in /repo by 58c4b827, the query now passes. Recording stubs of "
-            "eamove / inoscan / blkmove / ss2reserve / dirref / sumstats / itmove / newgroups (incl. the allocator specification stub of newgroups) "
+            "eamove / inoscan / blkmove / ss2reserve / dirref / sumstats / itmove / eafix / bbmove / newgroups (incl. the allocator specification stub of newgroups) "
             "and the byte-per-block bitmap stand-in (bytemap.h) are part of the trusted base.",
 }
